@@ -274,6 +274,8 @@ pub struct PCfg {
     pub capture_in_branch: bool,
     /// `if` expressions inside lambda bodies (same family of VM findings: closures + branches)
     pub if_in_lambda: bool,
+    /// maker functions may be called inside functions (a closure instance per sample), C12
+    pub makers_in_dsp: bool,
 }
 
 impl Default for PCfg {
@@ -309,6 +311,7 @@ impl Default for PCfg {
             capture_destructured: true,
             capture_in_branch: true,
             if_in_lambda: true,
+            makers_in_dsp: false,
         }
     }
 }
@@ -528,6 +531,7 @@ impl<'a> PG<'a> {
             if tuple_self { 2 } else { 0 },                      // 14 proj of self
             if self.cfg.hof && !sc.in_lambda { 1 } else { 0 },   // 15 inline lambda application via pipe
             1,                                                   // 16 comparison / logic as value
+            if self.cfg.makers_in_dsp && !sc.in_lambda && self.fns.iter().any(|f| f.maker) { 3 } else { 0 }, // 17 per-sample maker instance
         ];
         match self.g.weighted(&w) {
             0 => self.leaf_num(sc),
@@ -634,6 +638,25 @@ impl<'a> PG<'a> {
                 let body = self.num(&mut inner);
                 let id = self.id();
                 E::Pipe(id, Box::new(x), Box::new(E::Lam(vec![Param { name: pname, ty: Ty::Num, annotate: false }], Box::new(body))))
+            }
+            17 => {
+                // { let c = mk(lit)  c() + c() } — a closure instance created and dropped per sample
+                let makers: Vec<FnSig> = self.fns.iter().filter(|f| f.maker).cloned().collect();
+                let m = self.g.pick(&makers).clone();
+                self.feat.closures_local += 1;
+                let cname = self.fresh("pc");
+                let init = self.lit();
+                let id = self.id();
+                let mk = E::Call(id, Box::new(E::Var(m.name.clone())), vec![init]);
+                let nargs = if let Ty::Fun(ps, _) = &m.ret { ps.len() } else { 0 };
+                let mut calls = vec![];
+                for _ in 0..self.g.int(1, 2) {
+                    let args: Vec<E> = (0..nargs).map(|_| self.lit()).collect();
+                    let cid = self.id();
+                    calls.push(E::Call(cid, Box::new(E::Var(cname.clone())), args));
+                }
+                let last = calls.into_iter().reduce(|a, b| E::Bin(Bop::Add, Box::new(a), Box::new(b))).unwrap();
+                E::Block(vec![S::Let(Pat::Var(cname), mk)], Box::new(last))
             }
             _ => {
                 let c = self.cond(sc);
